@@ -137,4 +137,87 @@ def inline_body(prog, body, depth=2, max_blocks=120, decide=None):
     if j is None:
         return None, []
     j["inlined"] = inlined
+    _thread_known_variants(j)
     return j, inlined
+
+
+_THREADABLE = ("core::option::Option", "core::result::Result")    # discriminant value = variant index
+
+
+def _thread_known_variants(j):
+    """After splicing `fn helper(..) -> Option<T>` into `if let Some(v) = helper(..) { return v }`, every `Some(..)` / `None` built in the
+    helper flows through one shared return block into the caller's test of the discriminant; a CFG-based rule then sees the infeasible
+    path None -> `Some` edge.  Where the constructed variant is known in the block that builds it and only straight-line blocks lie between
+    that block and the test, the path is duplicated and sent directly to the matching edge (jump threading).  Values are untouched."""
+    blocks = j["blocks"]
+
+    def plain_assign_to(blk, l):
+        return [s for s in blk["stmts"] if s["k"] in ("assign", "set_discr") and s["place"]["l"] == l]
+    rets = [(bb, s) for bb, blk in enumerate(blocks) for s in blk["stmts"] if s.get("inline_ret")]
+    for rb, rs in rets:
+        blk_r = blocks[rb]
+        if blk_r["stmts"][-1] is not rs or blk_r["term"]["k"] != "goto" or rs["place"]["p"] or "use" not in rs["rv"]:
+            continue
+        src = rs["rv"]["use"].get("move") or rs["rv"]["use"].get("copy")
+        if src is None or src["p"]:
+            continue
+        R, D = src["l"], rs["place"]["l"]
+        jb = blk_r["term"]["target"]
+        J = blocks[jb]
+        if J["term"]["k"] != "switch":
+            continue
+        # J: [tmp = discriminant(D)] ; switch tmp
+        tmp = None
+        ok = True
+        for s in J["stmts"]:
+            if s["k"] == "assign" and "discr" in s["rv"] and s["rv"]["discr"] == {"l": D, "p": []} and not s["place"]["p"]:
+                tmp = s["place"]["l"]
+            elif s["k"] == "assign":
+                ok = False
+        d = J["term"]["discr"]
+        dl = (d.get("move") or d.get("copy") or {}).get("l")
+        if not ok or tmp is None or dl != tmp:
+            continue
+        # definitions of R with a known variant
+        for pb in range(len(blocks)):
+            P = blocks[pb]
+            defs = plain_assign_to(P, R)
+            if not defs or P["term"]["k"] != "goto":
+                continue
+            last = defs[-1]
+            if last["k"] != "assign" or last["place"]["p"] or "agg" not in last["rv"] or last["rv"]["agg"].get("adt") not in _THREADABLE:
+                continue
+            if P["stmts"].index(last) < max(P["stmts"].index(x) for x in defs):
+                continue
+            vidx = last["rv"]["agg"].get("vidx")
+            # chain P -> ... -> rb through straight-line blocks
+            chain = []
+            cur = P["term"]["target"]
+            good = True
+            while cur != rb:
+                C = blocks[cur]
+                if len(chain) > 8 or C["term"]["k"] not in ("goto", "drop") or C["term"].get("target") is None or plain_assign_to(C, R) or plain_assign_to(C, D):
+                    good = False
+                    break
+                chain.append(cur)
+                cur = C["term"]["target"]
+            if not good or vidx is None:
+                continue
+            tgt = None
+            for v, t_ in J["term"]["cases"]:
+                if v == vidx:
+                    tgt = t_
+            if tgt is None:
+                tgt = J["term"]["otherwise"]
+            # clone chain + rb + J for this definition
+            first = len(blocks)
+            seq = chain + [rb, jb]
+            for i, cb in enumerate(seq):
+                C = blocks[cb]
+                nb = {"stmts": copy.deepcopy(C["stmts"]), "term": copy.deepcopy(C["term"]), "threaded_from": cb}
+                if cb == jb:
+                    nb["term"] = {"k": "goto", "target": tgt, "line": C["term"].get("line"), "threaded": True}
+                else:
+                    nb["term"]["target"] = first + i + 1
+                blocks.append(nb)
+            P["term"] = dict(P["term"], target=first)
